@@ -1,13 +1,13 @@
 package main
 
 import (
-	"runtime/debug"
 	_ "embed"
 	"encoding/json"
 	"flag"
 	"fmt"
 	"os"
 	"path/filepath"
+	"runtime/debug"
 	"sort"
 	"strconv"
 	"strings"
